@@ -64,6 +64,9 @@ fn show(v: &Variant, labels: &HashMap<Ref, u64>) -> String {
     }
     let v2 = match v {
         Variant::Ref(r) if r.is_some() && !labels.contains_key(r) => Variant::Ref(Ref::none()),
+        // MaterialColors are compared by the colour of every material (an absent entry means the default colour;
+        // the codec always writes all 21 entries): the blob is exactly that table
+        Variant::MaterialColors(m) => Variant::BinaryString(m.encode().into()),
         other => other.clone(),
     };
     let s = val::value_string(&norm_nan(&v2), &mut ctx);
